@@ -261,21 +261,30 @@ func tail(s string, n int) string {
 // RaceKey dedups race reports: outermost harness/yq entry points of both stacks, then the
 // line-stripped stack pair.
 func RaceKey(blk string) string {
-	var fns []string
 	re := regexp.MustCompile(`(?m)^  ([A-Za-z0-9_./()*\-]+)\(\)$`)
-	for _, m := range re.FindAllStringSubmatch(blk, -1) {
-		fns = append(fns, m[1])
-	}
-	var yq []string
-	for _, f := range fns {
-		if strings.Contains(f, "mikefarah/yq") {
-			yq = append(yq, f)
+	// one key part per access stack (the first two blank-line separated sections of the report), at most
+	// 12 yq frames each, so that a deep first stack cannot push the second access out of the key
+	sections := strings.Split(blk, "\n\n")
+	var parts []string
+	for _, sec := range sections {
+		if len(parts) == 2 {
+			break
 		}
+		var yq []string
+		for _, m := range re.FindAllStringSubmatch(sec, -1) {
+			if strings.Contains(m[1], "mikefarah/yq") {
+				yq = append(yq, m[1])
+			}
+		}
+		if len(yq) == 0 {
+			continue
+		}
+		if len(yq) > 12 {
+			yq = yq[:12]
+		}
+		parts = append(parts, strings.Join(yq, "|"))
 	}
-	if len(yq) > 12 {
-		yq = yq[:12]
-	}
-	return strings.Join(yq, "|")
+	return strings.Join(parts, " <-> ")
 }
 
 // ParentMain: vcheck run <prop> <tier> [--replay file]
@@ -523,7 +532,7 @@ func (r *runner) report(start time.Time, n, nrace int) int {
 	for _, id := range fids {
 		fmt.Printf("KNOWN-FINDING: property=%s %s: %s (hits=%d)\n", p.ID(), id, known[id].What, findingHits[id])
 	}
-	if len(r.races) > 0 && raceViol == 0 {
+	if _, classifies := p.(raceH); len(r.races) > 0 && raceViol == 0 && !classifies {
 		keys := make([]string, 0, len(raceKeys))
 		for k := range raceKeys {
 			keys = append(keys, k)
